@@ -5,6 +5,7 @@ import WindVerif.Drv.Sorted
 import WindVerif.Drv.SpanSet
 import WindVerif.Drv.Buffers
 import WindVerif.Drv.Generic
+import WindVerif.Drv.LineFile
 open WindVerif.Drv
 
 def machines : List (String × Machine) := [
@@ -18,7 +19,8 @@ def machines : List (String × Machine) := [
   ("buf", bufMachine),
   ("pbuf", pbufMachine),
   ("ring", ringMachine),
-  ("generic", genericMachine)
+  ("generic", genericMachine),
+  ("linefile", linefileMachine)
 ]
 
 def main (args : List String) : IO UInt32 := do
